@@ -36,7 +36,7 @@ func init() {
 }
 
 func init() {
-	registerReplay([]string{"(*dht.Server).handleQuery"}, ".", "root/server_replay_test.go", "TestGovcReplayServer")
+	registerReplay([]string{"(*dht.Server).handleQuery", "(*dht.Server).setReturnNodes", "(*dht.Server).setReturnNodes$2"}, ".", "root/server_replay_test.go", "TestGovcReplayServer")
 }
 
 func init() {
